@@ -359,6 +359,14 @@ func checkDate(c DateCase, r *ev.Rec) error {
 	if err != nil || d2b == nil || !bytes.Equal(d2b.Bytes(), want) {
 		return fmt.Errorf("DateFromTime(Date.Time()) = %v,%v want % x", d2b, err, want)
 	}
+	// the same instant expressed in other locations is the same Date
+	for _, off := range []int{-12 * 3600, -7*3600 - 1800, 3600, 5*3600 + 2700, 14 * 3600} {
+		zt := time.UnixMilli(ms).In(time.FixedZone("z", off))
+		dz, err := data.DateFromTime(zt)
+		if err != nil || dz == nil || !bytes.Equal(dz.Bytes(), want) {
+			return fmt.Errorf("DateFromTime(%d ms expressed at UTC%+d s) = %v,%v want % x: the zone of a time.Time is presentation, not part of the instant", ms, off, dz, err, want)
+		}
+	}
 	// seconds constructor: exact s*1000 or rejection, never a wrapped value
 	secs := ms / 1000
 	d3, err := data.NewDateFromUnix(secs)
